@@ -1,8 +1,8 @@
 #!/bin/bash
 # usage: all_refactors.sh  - applies every kept behaviour-preserving refactoring
 # (/verif/refactors/<id>/patch.diff, written by independent sub-agents given only the
-# property text) to /repo in turn, runs ALL quick checks, reverts, and prints every check
-# that raises an alarm. Any alarm is a false alarm. Exit 1 if there is one.
+# property text) to /repo in turn, runs ALL quick checks (6 at a time), reverts, and prints
+# every check that raises an alarm. Any alarm is a false alarm. Exit 1 if there is one.
 set -u
 export VERIF_EVIDENCE_DIR=/tmp/seed_evidence; mkdir -p $VERIF_EVIDENCE_DIR
 export PATH=/opt/veriftools/go1.26.8/bin:$PATH GOFLAGS=-mod=mod GOPROXY=off GOSUMDB=off GOTOOLCHAIN=local; unset GOWORK
@@ -10,16 +10,14 @@ cd /verif && ./setup.sh >/dev/null 2>&1
 if [ -n "$(git -C /repo status --porcelain)" ]; then echo "/repo is not clean"; exit 2; fi
 trap 'git -C /repo checkout -- . ; git -C /repo clean -fdq' EXIT
 PROPS=$(./bin/specterlint -list | python3 -c "import json,sys; print(' '.join(p['id'] for p in json.load(sys.stdin)))")
+one() { p=$1; out=$(/verif/run.sh $p quick 2>&1); rc=$?; if [ $rc -ne 0 ]; then echo "ALARM $p"; echo "$out" | grep -E ': rule ' | head -3 | sed "s/^/    [$p] /"; fi; }
+export -f one
 bad=0
 for d in /verif/refactors/*/; do
   name=$(basename $d)
   if ! git -C /repo apply $d/patch.diff 2>/dev/null; then echo "$name: PATCH DOES NOT APPLY"; bad=1; continue; fi
-  alarms=""
-  for p in $PROPS; do
-    out=$(/verif/run.sh $p quick 2>&1); rc=$?
-    if [ $rc -ne 0 ]; then alarms="$alarms $p"; echo "$out" | grep -E ': rule ' | head -3 | sed "s/^/    [$name $p] /"; fi
-  done
+  res=$(echo $PROPS | tr ' ' '\n' | xargs -P 6 -I{} bash -c 'one {}')
   git -C /repo checkout -- . ; git -C /repo clean -fdq
-  if [ -n "$alarms" ]; then echo "$name: FALSE ALARM in$alarms"; bad=1; else echo "$name: silent"; fi
+  if echo "$res" | grep -q '^ALARM'; then echo "$name: FALSE ALARM in $(echo "$res" | grep '^ALARM' | cut -d' ' -f2 | tr '\n' ' ')"; echo "$res" | grep -v '^ALARM' | sed "s/^/   [$name]/"; bad=1; else echo "$name: silent"; fi
 done
 exit $bad
